@@ -306,7 +306,7 @@ def run(ctx):
     else:
         runs = [("full<=4", dict(full, MaxFrames=4, MaxInFlight=2, Repaireds={False})),
                 ("slim<=6", dict(slim, MaxFrames=6, MaxInFlight=2, Repaireds={False})),
-                ("slim<=5 any interleaving", dict(slim, MaxFrames=5, MaxInFlight=5, Repaireds={False, True}))]
+                ("slim<=5 any interleaving", dict(slim, MaxFrames=5, MaxInFlight=5, Repaireds={False}))]
     for label, const in runs:
         cfgp = write_cfg(ctx.out / "exh.cfg", const, invariants=INVS)
         res = run_tlc("ZmqChannel", cfgp, spec_dir=SD, tag="C33", timeout=3000, java_opts=FAST if ctx.quick else None)
